@@ -10,7 +10,9 @@
 //!        c05 rnd <count> <shard> <nshards> <seed>
 //!        c05 one <bitset|counting> <cap> <tcap|inf> <listener modes: t|d|b ...> <notifier programs "0,0|9"> <failfull flags "01"> <schedule "0,0,1">
 //!        c05 search <bound> <shard> <nshards> <maxexecs-per-program>   (implementation alone, no model: slow-path shapes, native oracle)
-//!        c05 wit                          (the lost wake-up witnesses, replayed on the real code)
+//!        c05 wit                          (regression: the schedules of the fixed lost wake-up event:lost-wakeup-notified-empty-trigger; must deliver now)
+//!        c05 crash                        (residual window: a notifier dies between its state CAS and its post, after a stale promotion)
+//!        (a schedule entry kN = thread N crashes at its current gate: it is parked for ever)
 //!        c05 trig                         (sequential behaviour of the three REAL triggers)
 //!        c05 sem <timeout ms>             (lost wake-up on the REAL semaphore trigger, timed_wait as observable)
 extern crate iceoryx2_bb_loggers;
@@ -256,11 +258,16 @@ where <MtEvent<E> as Event<E>>::Listener: Sync, <MtEvent<E> as Event<E>>::Notifi
         RunMode::Sched(sch, xline) => {
             let inst = mk_inst::<E>(c);
             let mut chooser = |step: usize, enabled: &[usize], last: Option<usize>| -> Choice {
-                if step < sch.len() && enabled.contains(&sch[step]) { Choice::Run(sch[step]) }
+                if step < sch.len() && sch[step] >= 1000 && enabled.contains(&(sch[step] - 1000)) { Choice::Kill(sch[step] - 1000) }
+                else if step < sch.len() && enabled.contains(&sch[step]) { Choice::Run(sch[step]) }
                 else { match last { Some(l) if enabled.contains(&l) => Choice::Run(l), _ => Choice::Run(enabled[0]) } }
             };
             let ex = run_threads_b(bodies(c, &inst), &mut chooser);
             emit(c, &ex, &inst, out, *xline);
+            let killed: Vec<usize> = ex.choices.iter().filter(|c| **c > usize::MAX / 2).map(|c| usize::MAX - *c).collect();
+            if !killed.is_empty() {
+                let _ = writeln!(out, "K {}", killed.iter().map(|t| t.to_string()).collect::<Vec<_>>().join(","));
+            }
             1
         }
     }
@@ -376,6 +383,44 @@ fn search_programs() -> Vec<Case> {
     v
 }
 
+fn parse_sched(s: &str) -> Vec<usize> {
+    s.split(',').filter(|s| !s.is_empty()).map(|x| if let Some(t) = x.strip_prefix('k') { 1000 + t.parse::<usize>().unwrap() } else { x.parse().unwrap() }).collect()
+}
+
+/// the residual window (known finding event:crash-between-cas-and-post-after-stale-promotion), replayed on the
+/// real code: listener [try_wait; blocking_wait], notifier 1 [notify 0], notifier 2 [notify 0; notify 0]; notifier 2's
+/// late Pending -> Notified CAS promotes the Pending set by notifier 1, notifier 2's second notify sees Notified and
+/// returns Ok without a trigger, notifier 1 dies at its trigger post (parked for ever): the listener sleeps for ever
+fn crash_mode(out: &mut impl Write) {
+    for kind in ["counting", "bitset"] {
+        let c = Case { kind, cap: 1, tcap: None, lmodes: vec!['t', 'b'], nprogs: vec![vec![0], vec![0, 0]], ff: vec![false, false] };
+        let sch = if kind == "counting" { parse_sched("0,0,0,1,1,2,2,2,2,0,0,0,0,0,1,2,2,2,2,k1") } else { parse_sched("0,0,0,1,1,1,2,2,2,2,0,0,0,0,0,1,2,2,2,2,2,k1") };
+        let text = sch.iter().map(|x| if *x >= 1000 { format!("k{}", x - 1000) } else { x.to_string() }).collect::<Vec<_>>().join(",");
+        let r = if kind == "counting" { crash_run::<RelocatableCountingBitSet>(&c, &sch) } else { crash_run::<RelocatableBitSet>(&c, &sch) };
+        let _ = writeln!(out, "CRASH-REPLAY kind={} schedule={} {}", kind, text, r);
+    }
+}
+
+fn crash_run<E: EventState + 'static>(c: &Case, sch: &[usize]) -> String
+where <MtEvent<E> as Event<E>>::Listener: Sync, <MtEvent<E> as Event<E>>::Notifier: Sync {
+    let inst = mk_inst::<E>(c);
+    let mut chooser = |step: usize, enabled: &[usize], last: Option<usize>| -> Choice {
+        if step < sch.len() && sch[step] >= 1000 && enabled.contains(&(sch[step] - 1000)) { Choice::Kill(sch[step] - 1000) }
+        else if step < sch.len() && enabled.contains(&sch[step]) { Choice::Run(sch[step]) }
+        else { match last { Some(l) if enabled.contains(&l) => Choice::Run(l), _ => Choice::Run(enabled[0]) } }
+    };
+    let ex = run_threads_b(bodies(c, &inst), &mut chooser);
+    let killed: Vec<usize> = ex.choices.iter().filter(|c| **c > usize::MAX / 2).map(|c| usize::MAX - *c).collect();
+    let (ns, tk, left) = final_obs(&inst);
+    // notifies that returned Ok, per thread
+    let mut ok = vec![0usize; c.nprogs.len() + 1];
+    for r in &ex.log { if let Rec::Ret { tid, code } = r { if *tid > 0 && *code == 0 { ok[*tid] += 1; } } }
+    let survivors_done = (1..=c.nprogs.len()).all(|t| killed.contains(&t) || ok[t] == c.nprogs[t - 1].len());
+    let lost = ex.blocked_forever == vec![0] && survivors_done && !left.is_empty() && ok.iter().sum::<usize>() > 0;
+    format!("killed={:?} notification_state={} trigger_tokens={} pending={:?} listener_blocked_forever={} surviving_notifiers_returned_ok={} lost={}",
+        killed, ns, tk, left, ex.blocked_forever == vec![0], survivors_done, lost)
+}
+
 fn parse_case(a: &[String]) -> Case {
     let kind = if a[0] == "bitset" { "bitset" } else { "counting" };
     let nprogs: Vec<Vec<usize>> = a[4].split('|').map(|t| t.split(',').filter(|s| !s.is_empty()).map(|s| s.parse().unwrap()).collect()).collect();
@@ -449,12 +494,13 @@ fn main() {
         }
         "one" => {
             let c = parse_case(&a[2..]);
-            let sch: Vec<usize> = a.get(8).map(|s| s.split(',').filter(|s| !s.is_empty()).map(|s| s.parse().unwrap()).collect()).unwrap_or_default();
+            let sch: Vec<usize> = a.get(8).map(|s| parse_sched(s)).unwrap_or_default();
             run_any(&c, &RunMode::Sched(sch, std::env::var("VERIF_NO_XLINE").is_err()), &mut out);
         }
         "wit" => {
             for (c, s) in witnesses() { run_any(&c, &RunMode::Sched(s, false), &mut out); }
         }
+        "crash" => crash_mode(&mut out),
         "trig" => real::trig_mode(&mut out),
         "sem" => real::sem_mode(a.get(2).map(|s| s.parse().unwrap()).unwrap_or(300), &mut out),
         _ => panic!("mode"),
